@@ -769,10 +769,19 @@ class Translator:
             if m == "Sync":
                 return (("refarr", name, idx, w), ("size", name + ".refs", idx))
             if m == "SetKeepEmptyRefs":
-                return (("assign", name + ".keepEmptyRefs", idx, ("b", 1), ("const", 1)), None)
+                # SetKeepEmptyRefs(const bool keep = true): the argument may be an expression (BSSkinInstance passes IsSF())
+                real = [a for a in args if a.get("kind") != "CXXDefaultArgExpr"]
+                ke = self.expr(real[0], cx) if real else ("const", 1)
+                return (("assign", name + ".keepEmptyRefs", idx, ("b", 1), ke), None)
             if m == "SetSize":
+                # arraySize = n; refs.resize(n): the references added by the resize are default-constructed (NPOS)
                 ne = self.expr(args[0], cx)
-                return (_seq([("assign", name + ".arraySize", idx, ("u", 4), ne), ("resize", name + ".refs", idx, ne)]), None)
+                old, j = self.fresh("n"), self.fresh("i")
+                fill = ("for", j, ("size", name + ".refs", idx),
+                        ("if", ("bin", "ge", ("local", j), ("local", old)),
+                         ("assign", name + ".refs[].index", idx + [("local", j)], ("u", 4), ("const", 4294967295)), ("skip",)))
+                return (_seq([("local", old, ("u", 4), ("size", name + ".refs", idx)),
+                              ("assign", name + ".arraySize", idx, ("u", 4), ne), ("resize", name + ".refs", idx, ne), fill]), None)
             if m == "Clear":
                 return (_seq([("assign", name + ".arraySize", idx, ("u", 4), ("const", 0)), ("resize", name + ".refs", idx, ("const", 0)),
                               ("assign", name + ".keepEmptyRefs", idx, ("b", 1), ("const", 0))]), None)
